@@ -292,6 +292,10 @@ func genMetric(r *rand.Rand, mode string) metricIn {
 		in.Recs = genMetricRecs(r, r.Intn(14), span, true)
 		in.Expr = *genRange(r, 1, true)
 		in.Evals = genEvals(r, span)
+	case "vecagg":
+		in.Recs, in.Expr, in.Evals = genVecAggCase(r)
+	case "binop":
+		in.Recs, in.Expr, in.Evals = genBinOpCase(r)
 	case "series":
 		// many labels, values that are prefixes / concatenations of one another, everything inside one wide window
 		names := []string{"a", "ab", "b", "abc", "c", "bc", "x"}
@@ -345,4 +349,97 @@ func (famMetric) Gen(r *rand.Rand, n int, opt map[string]string) []any {
 		out = append(out, genMetric(r, opt["mode"]))
 	}
 	return out
+}
+
+// wide-window inputs: every record lies inside every window, so C11/C12 cases stay away from window edges (C09's subject)
+func wideRecs(r *rand.Rand, withV bool) []MemRec {
+	n := 1 + r.Intn(10)
+	var recs []MemRec
+	for i := 0; i < n; i++ {
+		rec := MemRec{ID: i + 1, TS: []int{mBase + 1 + i, 0}, Line: B("m"), Doc: [][2][]int{}}
+		rec.Attrs = [][2][]int{{B("app"), B(pick(r, []string{"a", "b", "c"}))}}
+		if r.Intn(3) != 0 {
+			rec.Attrs = append(rec.Attrs, [2][]int{B("zone"), B(pick(r, []string{"x", "y"}))})
+		}
+		if withV {
+			rec.Attrs = append(rec.Attrs, [2][]int{B("v"), B(pick(r, []string{"1", "2", "3", "0.5"}))})
+		}
+		recs = append(recs, rec)
+	}
+	return recs
+}
+
+func wideRange(id int, r *rand.Rand, withV bool) *mexprIn {
+	e := &mexprIn{T: "range", ID: id, Sel: []matcherIn{}, Param: Ints{0, 1}, Grp: noGrp(), V: Ints{0, 1}, Unwrap: unwrapIn{Label: Ints{}}, Range: 100}
+	if withV {
+		e.Op = []string{"sum_over_time", "max_over_time", "avg_over_time"}[r.Intn(3)]
+		e.Stages = []stageIn{{T: "drop", Labels: IntsList{B("msg")}}}
+		e.Unwrap = unwrapIn{On: true, Label: B("v")}
+		if e.Op != "sum_over_time" {
+			e.Grp = grpIn{Mode: "without", Labels: IntsList{B("v")}}
+		}
+	} else {
+		e.Op = []string{"count_over_time", "bytes_over_time"}[r.Intn(2)]
+		e.Stages = []stageIn{{T: "drop", Labels: IntsList{B("msg"), B("v")}}}
+	}
+	return e
+}
+
+func randClause(r *rand.Rand) grpIn {
+	names := []string{"app", "zone", "nope", "v"}
+	switch r.Intn(4) {
+	case 0:
+		return noGrp()
+	case 1:
+		return grpIn{Mode: []string{"by", "without"}[r.Intn(2)], Labels: IntsList{}}
+	}
+	g := grpIn{Mode: []string{"by", "without"}[r.Intn(2)], Labels: IntsList{}}
+	used := map[string]bool{}
+	for k := 1 + r.Intn(2); k > 0; k-- {
+		nm := pick(r, names)
+		if !used[nm] {
+			used[nm] = true
+			g.Labels = append(g.Labels, B(nm))
+		}
+	}
+	return g
+}
+
+var wideEvals = []evalIn{{Start: mBase + 50, End: mBase + 50, Step: 0}, {Start: mBase + 40, End: mBase + 70, Step: 15}}
+
+func genVecAggCase(r *rand.Rand) ([]MemRec, mexprIn, []evalIn) {
+	withV := r.Intn(3) == 0
+	recs := wideRecs(r, withV)
+	e := wideRange(1, r, withV)
+	depth := 1 + r.Intn(2)
+	fractional := withV && e.Op == "avg_over_time"
+	for d := 0; d < depth; d++ {
+		ops := []string{"sum", "avg", "min", "max", "count", "stddev", "stdvar"}
+		if fractional {
+			// keep the exact rationals of the specification within 31 bits: no variance of averages
+			ops = []string{"sum", "min", "max", "count"}
+		}
+		op := ops[r.Intn(len(ops))]
+		if op == "stddev" && d < depth-1 {
+			op = "stdvar" // a standard deviation is irrational: the specification compares it (through its square) only as the outermost value
+		}
+		if op == "avg" || op == "stddev" || op == "stdvar" {
+			fractional = true
+		}
+		e = &mexprIn{T: "vecagg", Op: op, Grp: randClause(r), E: e,
+			Sel: []matcherIn{}, Stages: []stageIn{}, Param: Ints{0, 1}, V: Ints{0, 1}, Unwrap: unwrapIn{Label: Ints{}}}
+	}
+	switch r.Intn(4) {
+	case 0:
+		e = &mexprIn{T: "vecagg", Op: []string{"topk", "bottomk"}[r.Intn(2)], K: []int{1, 2, 5}[r.Intn(3)], Grp: randClause(r), E: e,
+			Sel: []matcherIn{}, Stages: []stageIn{}, Param: Ints{0, 1}, V: Ints{0, 1}, Unwrap: unwrapIn{Label: Ints{}}}
+	case 1:
+		e = &mexprIn{T: "vecagg", Op: []string{"sort", "sort_desc"}[r.Intn(2)], Grp: noGrp(), E: e,
+			Sel: []matcherIn{}, Stages: []stageIn{}, Param: Ints{0, 1}, V: Ints{0, 1}, Unwrap: unwrapIn{Label: Ints{}}}
+	}
+	return recs, *e, wideEvals
+}
+
+func genBinOpCase(r *rand.Rand) ([]MemRec, mexprIn, []evalIn) {
+	return genVecAggCase(r)
 }
